@@ -28,7 +28,7 @@ type Event struct {
 
 var kindNames = map[int32]string{
 	vsync.KStart: "start", vsync.KEnd: "end", vsync.KGet: "pool.Get", vsync.KPut: "pool.Put", vsync.KLock: "Lock", vsync.KUnlock: "Unlock",
-	vsync.KRLock: "RLock", vsync.KRUnlock: "RUnlock", vsync.KOp: "op", vsync.KUser: "yield", vsync.KTryLock: "TryLock",
+	vsync.KRLock: "RLock", vsync.KRUnlock: "RUnlock", vsync.KOp: "op", vsync.KUser: "yield", vsync.KTryLock: "TryLock", vsync.KAtomic: "atomic",
 }
 
 func (e Event) String() string {
@@ -164,7 +164,7 @@ func RunScheduled(cx *Ctx, bodies []func()) *SchedResult {
 				w := 2
 				if e == last {
 					w = 4
-					if lastKind == vsync.KPut || lastKind == vsync.KUnlock || tasks[e].kind == vsync.KLock || tasks[e].kind == vsync.KGet {
+					if lastKind == vsync.KPut || lastKind == vsync.KUnlock || tasks[e].kind == vsync.KLock || tasks[e].kind == vsync.KGet || tasks[e].kind == vsync.KAtomic {
 						w = 1
 					}
 				}
